@@ -83,6 +83,13 @@ var propSpecs = map[string]*PropSpec{
 		TrustedBase: []string{"caches.Delete is atomic under the cache lock (C28 contracts and lock discipline)", "challengeOf(v) is BASE64URL(SHA256(v)): crypto/sha256 and encoding/base64 (asserted to be applied to the verifier)", "codes and refresh tokens are freshly generated random keys (crypto/rand)"},
 		Extra:       c23Extra,
 	},
+	"C44": {
+		Patterns:    []string{"./..."},
+		Level:       "proof",
+		Explanation: "the responses that can carry a stored secret are guarded sinks: the two configuration handlers never read the value of a secret item (token, token key, logon and refresh tokens, anything named password / credential / secret) for a response and every such item in the response carries the elision marker (loop invariant over the items); every util.WriteJSON call in the module whose body type can hold a password- or secret-named string field (found from go/types on every run) is under an assertion that the field holds an elision marker: the user handlers, the DSN handlers, and the DSN list through the contract of both DSN services' ListDSNS (loop invariants)",
+		TrustedBase: []string{"responses are written through util.WriteJSON (other writers of response bodies are not scanned)", "secrets echoed in error messages or served by the log endpoint are not covered", "OAuth client registrations and signing keys are not serialised through a type with a secret-named field on any WriteJSON path found; their endpoints are otherwise not covered"},
+		Extra:       c44Extra,
+	},
 	"C27": {
 		Patterns: []string{"./..."},
 		Level:    "proof",
